@@ -108,7 +108,11 @@ theorem options_covered :
     parameter).  A new consumer of an option, or a check that disappears, changes this list. -/
 theorem option_sites_ok :
     Verif.Gen.OptionSites.sites =
-      ["css.Minifier.Minify: Inline WRITE",
+      ["css.(unexported): KeepCSS2 if-condition",
+       "css.(unexported): KeepCSS2 if-condition",
+       "css.(unexported): Precision arg 1 of minify.Decimal",
+       "css.(unexported): Precision arg 1 of minify.Number",
+       "css.Minifier.Minify: Inline WRITE",
        "css.Minifier.Minify: Inline arg 1 of css.NewParser",
        "css.Minifier.Minify: Inline if-condition",
        "css.Minifier.Minify: Precision assigned to field css.Minifier.newPrecision",
@@ -116,10 +120,6 @@ theorem option_sites_ok :
        "css.Minifier.Minify: newPrecision WRITE",
        "css.Minifier.Minify: newPrecision if-condition",
        "css.Minifier.Minify: newPrecision if-condition",
-       "css.cssMinifier.minifyNumber: KeepCSS2 if-condition",
-       "css.cssMinifier.minifyNumber: Precision arg 1 of minify.Decimal",
-       "css.cssMinifier.minifyNumber: Precision arg 1 of minify.Number",
-       "css.cssMinifier.minifyProperty: KeepCSS2 if-condition",
        "html.Minifier.Minify: KeepComments if-condition",
        "html.Minifier.Minify: KeepConditionalComments WRITE",
        "html.Minifier.Minify: KeepConditionalComments if-condition",
@@ -135,21 +135,24 @@ theorem option_sites_ok :
        "html.Minifier.Minify: KeepWhitespace if-condition",
        "html.Minifier.Minify: KeepWhitespace if-condition",
        "html.Minifier.Minify: TemplateDelims arg 1 of html.NewTemplateLexer",
-       "js.Minifier.Minify: KeepVarNames arg 0 of js.newRenamer",
+       "js.(unexported): KeepVarNames assigned to field js.renamer.rename",
+       "js.(unexported): KeepVarNames assigned to field js.renamer.rename",
+       "js.(unexported): KeepVarNames assigned to field js.renamer.rename",
+       "js.(unexported): KeepVarNames if-condition",
+       "js.(unexported): Precision arg 1 of an unexported function of the package",
+       "js.(unexported): Precision arg 1 of an unexported function of the package",
+       "js.(unexported): Precision arg 1 of an unexported function of the package",
+       "js.(unexported): Precision arg 1 of an unexported function of the package",
+       "js.(unexported): Version returned",
+       "js.(unexported): Version returned",
+       "js.Minifier.Minify: KeepVarNames arg 0 of an unexported function of the package",
        "js.Minifier.Minify: KeepVarNames if-condition",
-       "js.Minifier.Minify: useAlphabetVarNames arg 1 of js.newRenamer",
-       "js.Minifier.minVersion: Version returned",
-       "js.Minifier.minVersion: Version returned",
-       "js.jsMinifier.countHoistLength: KeepVarNames if-condition",
-       "js.jsMinifier.minifyArrowFunc: KeepVarNames assigned to field js.renamer.rename",
-       "js.jsMinifier.minifyExpr: Precision arg 1 of js.binaryNumber",
-       "js.jsMinifier.minifyExpr: Precision arg 1 of js.decimalNumber",
-       "js.jsMinifier.minifyExpr: Precision arg 1 of js.hexadecimalNumber",
-       "js.jsMinifier.minifyExpr: Precision arg 1 of js.octalNumber",
-       "js.jsMinifier.minifyFuncDecl: KeepVarNames assigned to field js.renamer.rename",
-       "js.jsMinifier.minifyMethodDecl: KeepVarNames assigned to field js.renamer.rename",
+       "js.Minifier.Minify: useAlphabetVarNames arg 1 of an unexported function of the package",
        "json.Minifier.Minify: KeepNumbers if-condition",
        "json.Minifier.Minify: Precision arg 1 of minify.Number",
+       "svg.(unexported): Precision arg 1 of minify.Number",
+       "svg.(unexported): Precision arg 1 of minify.Number",
+       "svg.(unexported): newPrecision arg 1 of minify.Number",
        "svg.Minifier.Minify: Inline WRITE",
        "svg.Minifier.Minify: Inline if-condition",
        "svg.Minifier.Minify: Inline if-condition",
@@ -159,9 +162,6 @@ theorem option_sites_ok :
        "svg.Minifier.Minify: newPrecision WRITE",
        "svg.Minifier.Minify: newPrecision if-condition",
        "svg.Minifier.Minify: newPrecision if-condition",
-       "svg.Minifier.shortenDimension: Precision arg 1 of minify.Number",
-       "svg.PathData.shortenAltPosInstruction: newPrecision arg 1 of minify.Number",
-       "svg.PathData.shortenCurPosInstruction: Precision arg 1 of minify.Number",
        "xml.Minifier.Minify: KeepWhitespace if-condition",
        "xml.Minifier.Minify: KeepWhitespace if-condition",
        "xml.Minifier.Minify: KeepWhitespace if-condition",
